@@ -427,6 +427,8 @@ def configs(tier):
     cf.append(dict(kind="loci", sizes=[2, 1], chroms_of=[["c1", "c1"], ["c2"]], signals=False))
     cf.append(dict(kind="loci", sizes=[2, 2], chroms_of=[["c1", "c2"], ["c2", "c1"]], signals=False, chroms=["c1"]))
     cf.append(dict(kind="loci", sizes=[2, 2], chroms_of=[["c1", "c2"], ["c2", "c1"]], signals=False, chroms=["c1"], sym_chroms=True))
+    # chromosome names of which one is a prefix of the other (chr1 / chr10): only exact membership in `chroms` keeps a locus
+    cf.append(dict(kind="loci", sizes=[2, 1], chroms_of=[["c1", "c10"], ["c10"]], signals=False, chroms=["c1"], sym_chroms=True))
     if not q:
         cf.append(dict(kind="loci", sizes=[1, 3, 2], chroms_of=[["c1"], ["c1", "c2", "c1"], ["c2", "c2"]], signals=False))
         cf.append(dict(kind="loci", sizes=[3], chroms_of=[["c1", "c2", "c1"]], signals=True, counts=True, n_loci=True))
